@@ -952,6 +952,7 @@ def Ev.prefixOk : Ev → Prop
   | .cmd pfx _ => C16.noBreak pfx
   | .cmdIn _ pfx _ => C16.noBreak pfx
   | .order _ _ => True
+  | .expire => True
 
 theorem stepEv_ownInv {O : Nat → Prop} (cfg : Cfg) (hcfg : HashSafe cfg) (st : St) (e : Ev) (he : e.prefixOk)
     (h : OwnInv O st) : OwnInv O (stepEv cfg st e) := by
@@ -964,6 +965,7 @@ theorem stepEv_ownInv {O : Nat → Prop} (cfg : Cfg) (hcfg : HashSafe cfg) (st :
     · exact step_ownInv cfg hcfg st pfx he _ (some ch) h
     · exact h
   | order uo co => exact ⟨fileOrder_inv uo co h.inv, h.mem, fileOrder_fileOwn uo co h.file⟩
+  | expire => exact ⟨⟨h.inv.users, h.inv.cu, h.inv.cuok, h.inv.fresh⟩, h.mem, h.file⟩
 
 /-- **No history creates an owner — whatever order the capability sets are written in.**
 `history_owner_safe` for histories in which, at any point, the environment may fix the order of
@@ -997,6 +999,7 @@ def GoodRunEv (cfg : Cfg) : St → List Ev → Prop
      | some c' => Quiet cfg st pfx c' (some ch) ∧ GoodRunEv cfg (step cfg st pfx c' (some ch)).1 rest
      | none => GoodRunEv cfg st rest)
   | st, .order uo co :: rest => GoodRunEv cfg (st.fileOrder uo co) rest
+  | st, .expire :: rest => GoodRunEv cfg { st with auth := [] } rest
 
 /-- **`history_safe_all` with order events**: the three invariants (`Inv3`: stored fields are
 line-safe, ids are distinct and below `nextId`, the saved file holds no capability that memory
@@ -1036,6 +1039,11 @@ theorem history_safe_all_ev (cfg : Cfg) (hcfg : HashSafe cfg) (hist : List Ev) (
     | order uo co =>
       have h' : Inv3 (st.fileOrder uo co) := ⟨fileOrder_inv uo co h.inv, h.ids, fileOrder_fileOk uo co h.file⟩
       obtain ⟨h1, h2⟩ := ih (st.fileOrder uo co) h' (fun e he => hp e (by simp [he])) hg
+      exact ⟨fun id hid => h1 id hid, h2⟩
+    | expire =>
+      have h' : Inv3 ({ st with auth := [] } : St) :=
+        ⟨⟨h.inv.users, h.inv.cu, h.inv.cuok, h.inv.fresh⟩, h.ids, h.file⟩
+      obtain ⟨h1, h2⟩ := ih _ h' (fun e he => hp e (by simp [he])) hg
       exact ⟨fun id hid => h1 id hid, h2⟩
 
 /-! ## the channels file and the channels in memory (`ChanAgree`, C02/Chan.lean) -/
@@ -1161,6 +1169,7 @@ def ChanLoadsOkEv (cfg : Cfg) : St → List Ev → Prop
      | some c' => ChanLoadsOk cfg st c' ∧ ChanLoadsOkEv cfg (step cfg st pfx c' (some ch)).1 rest
      | none => ChanLoadsOkEv cfg st rest)
   | st, .order uo co :: rest => ChanLoadsOkEv cfg (st.fileOrder uo co) rest
+  | st, .expire :: rest => ChanLoadsOkEv cfg { st with auth := [] } rest
 
 /-- **The channels file never differs from the channels in memory** (as answers to
 `getChannel`, capability sets compared as sets): along any history of messages, flushes, reloads
@@ -1192,6 +1201,8 @@ theorem history_chanAgree_ev (cfg : Cfg) (hist : List Ev) (st : St) (h : ChanAgr
         exact ih _ (step_chanAgree_all cfg st pfx c' (some ch) h hl'.1) hl'.2
     | order uo co =>
       exact ih _ (fileOrder_chanAgree uo co h) hl
+    | expire =>
+      exact ih _ (fun saved hsv n => h saved hsv n) hl
 
 /-! ## the statement of the property over whole histories -/
 
@@ -1205,6 +1216,7 @@ def GrantedIn (cfg : Cfg) : St → List Ev → Nat → Str → Prop
      | some c' => Entitled cfg st pfx c' (some ch) id x ∨ GrantedIn cfg (step cfg st pfx c' (some ch)).1 rest id x
      | none => GrantedIn cfg st rest id x)
   | st, .order uo co :: rest, id, x => GrantedIn cfg (st.fileOrder uo co) rest id x
+  | st, .expire :: rest, id, x => GrantedIn cfg { st with auth := [] } rest id x
 
 /-- one command step: capabilities are old or granted by an entitled sender (reloads: old) -/
 theorem step_caps_all (cfg : Cfg) (st : St) (pfx : Str) (c : Cmd) (ch : Option Str) (h : Inv3 st) :
@@ -1273,6 +1285,13 @@ theorem history_caps_entitled (cfg : Cfg) (hcfg : HashSafe cfg) (hist : List Ev)
       have h' : Inv3 (st.fileOrder uo co) := ⟨fileOrder_inv uo co h.inv, h.ids, fileOrder_fileOk uo co h.file⟩
       intro p hp' x hx
       rcases ih (st.fileOrder uo co) h' (fun e he => hp e (by simp [he])) hg p hp' x hx with h1 | h1
+      · exact Or.inl h1
+      · exact Or.inr h1
+    | expire =>
+      have h' : Inv3 ({ st with auth := [] } : St) :=
+        ⟨⟨h.inv.users, h.inv.cu, h.inv.cuok, h.inv.fresh⟩, h.ids, h.file⟩
+      intro p hp' x hx
+      rcases ih _ h' (fun e he => hp e (by simp [he])) hg p hp' x hx with h1 | h1
       · exact Or.inl h1
       · exact Or.inr h1
 
